@@ -22,7 +22,8 @@ Pure ast walk over common.py and server.py, no execution of repo code, fail clos
     * per @worker function: its ConnectionConditions decorator (fields, wait, fail_code), decorator order, and
       the data-stream operations its body performs (write / iter_by_block -> read);
     * dispatcher: parse_command is in the initial pending set and is re-spawned in the `isinstance(result, tuple)`
-      branch; parse_command starts with `await stream.readline()`; response_writer writes through the same stream."""
+      branch; parse_command starts with `await stream.readline()`; response_writer writes through the same stream;
+      parse_command's return statements (tuple or not), the exception classes it handles itself, everything it awaits."""
 import ast
 from pathlib import Path
 
@@ -453,7 +454,14 @@ def dispatcher_respawn(server):
     rw_writes = any("self.write_response(stream" in src(n) for n in ast.walk(rw) if isinstance(n, ast.Await))
     wl = fn_of(server, "write_line")
     wl_write = [src(n.value) for n in ast.walk(wl) if isinstance(n, ast.Await)]
-    return init_pc, respawn or "", first, writer_stream, rw_writes, wl_write
+    # how parse_command can complete: every `return` (a tuple is the only result for which the dispatcher starts the
+    # next reader), every exception it swallows (`except` clauses), the awaits it performs besides the timed readline
+    pc_returns = ["tuple" if isinstance(n.value, ast.Tuple) else src(n.value) if n.value is not None else "None"
+                  for n in own_nodes(pc) if isinstance(n, ast.Return)]
+    pc_handlers = [src(h.type) if h.type is not None else "BaseException"
+                   for n in own_nodes(pc) if isinstance(n, ast.Try) for h in n.handlers]
+    pc_awaits = [src(n.value) for n in own_nodes(pc) if isinstance(n, ast.Await)]
+    return init_pc, respawn or "", first, writer_stream, rw_writes, wl_write, pc_returns, pc_handlers, pc_awaits
 
 
 def generate(src_dir):
@@ -472,7 +480,7 @@ def generate(src_dir):
     from .gen_dispatch import class_consts
 
     workers = worker_facts(server, class_consts(cls_of(server_t, "ConnectionConditions")))
-    init_pc, respawn, pc_first, writer_stream, rw_writes, wl_write = dispatcher_respawn(server)
+    init_pc, respawn, pc_first, writer_stream, rw_writes, wl_write, pc_returns, pc_handlers, pc_awaits = dispatcher_respawn(server)
 
     o = emit.HEADER.format(src=str(src_dir / "{common,server}.py"))
     o += "From Coq Require Import String.\nOpen Scope string_scope.\n\n"
@@ -523,4 +531,8 @@ def generate(src_dir):
     o += f"Definition response_writer_stream : string := {S(writer_stream)}.\n"
     o += f"Definition response_writer_writes_stream : bool := {emit.boolean(rw_writes)}.\n"
     o += f"Definition write_line_awaits : list string := {slist(wl_write)}.\n"
+    o += "(* parse_command: kinds of its return statements, exception classes it handles itself, everything it awaits *)\n"
+    o += f"Definition parse_command_returns : list string := {slist(pc_returns)}.\n"
+    o += f"Definition parse_command_handles : list string := {slist(pc_handlers)}.\n"
+    o += f"Definition parse_command_awaits : list string := {slist(pc_awaits)}.\n"
     return o
